@@ -136,6 +136,31 @@ def _gsd(res, index):
                     if want not in src:
                         flow_bad = True
                         res.bad("GSD-1", label + ":arg:" + pname, where, f"constructor argument `{pname}` flows from {sorted(src)}, not from {want}")
+                elif isinstance(init, FuncInfo):
+                    # any other constructor argument either comes from the spec or is the parameter's default: a constant that is
+                    # neither replaces a piece of the original's state (its normal, a tolerance) by a fixed value
+                    isconst = (arg.has_const() and arg.const is not None) or (
+                        arg.kind in ("tuple", "list") and arg.items is not None and arg.items and all(i_.has_const() for i_ in arg.items))
+                    fromspec = any(o.startswith("self") for (o, a) in arg.deps) or bool(arg.pdeps)
+                    if isconst and not fromspec:
+                        a_ = init.node.args
+                        pos = a_.posonlyargs + a_.args
+                        dflt = {}
+                        for pa, dv in zip(pos[len(pos) - len(a_.defaults):], a_.defaults):
+                            dflt[pa.arg] = dv
+                        for pa, dv in zip(a_.kwonlyargs, a_.kw_defaults):
+                            if dv is not None:
+                                dflt[pa.arg] = dv
+                        try:
+                            dval = ast.literal_eval(dflt[pname]) if pname in dflt else "<none>"
+                        except Exception:
+                            dval = "<expr>"
+                        cval = arg.const if arg.has_const() else tuple(i_.const for i_ in arg.items)
+                        same = (dval == cval) or (isinstance(dval, (list, tuple)) and isinstance(cval, (list, tuple)) and list(dval) == list(cval))
+                        if not same and dval != "<expr>":
+                            flow_bad = True
+                            res.bad("GSD-1", label + ":constarg:" + pname, where, f"the reader builds {cls.name} with `{pname}` = {cval!r}, a constant that is "
+                                    f"neither read from the spec nor the constructor's default ({dval!r}): the rebuilt shape has that {pname} whatever the original's was")
         if not (missing or unread or flow_bad):
             res.ok("GSD-1", label, sample={"class": cls.name, "type": spec.mapping["type"].const, "keys": sorted(written),
                                            "reader_builds": names})
